@@ -37,6 +37,14 @@ FileOk(f, o) ==
        /\ \A i \in DOMAIN o.out : ~IsClassMarker(o.out[i])
        /\ \A i \in DOMAIN o.err : ~IsClassMarker(o.err[i])
 
+(* C07's part of the command line: a classifiable file is labelled          *)
+(* "(completed)" exactly when it is a completed running order (judged on   *)
+(* the marker lines that were printed; whether every file gets a marker is *)
+(* C19's business)                                                         *)
+EndsCompleted(x) == \E c \in ClassNames : x = c \o " (completed)"
+CompletedLabelOk(f, o) ==
+  IsValid(f) => \A i \in DOMAIN o.out : IsClassMarker(o.out[i]) => (EndsCompleted(o.out[i]) <=> f.completed)
+
 (* how the documents are named on the command line                        *)
 (*   "files"                 -f f1 f2 ...                                   *)
 (*   "bucket_prefix"         -b bucket -p prefix        (default suffix)    *)
